@@ -7,6 +7,7 @@ import (
 	"os"
 	"os/exec"
 	"path/filepath"
+	"regexp"
 	"strings"
 	"sync"
 	"time"
@@ -20,6 +21,10 @@ type solverRes struct {
 }
 
 func runSolver(ctx context.Context, name string, file string, timeout time.Duration) solverRes {
+	return runSolverSeed(ctx, name, file, timeout, 1)
+}
+
+func runSolverSeed(ctx context.Context, name string, file string, timeout time.Duration, seed int) solverRes {
 	var cmd *exec.Cmd
 	secs := int(timeout.Seconds())
 	if secs < 1 {
@@ -29,11 +34,15 @@ func runSolver(ctx context.Context, name string, file string, timeout time.Durat
 	defer cancel()
 	switch name {
 	case "z3":
-		cmd = exec.CommandContext(cctx, "z3", fmt.Sprintf("-T:%d", secs), "smt.random_seed=1", file)
+		cmd = exec.CommandContext(cctx, "z3", fmt.Sprintf("-T:%d", secs), fmt.Sprintf("smt.random_seed=%d", seed), file)
 	case "z3-new":
-		cmd = exec.CommandContext(cctx, "z3-new", fmt.Sprintf("-T:%d", secs), "smt.random_seed=1", file)
+		cmd = exec.CommandContext(cctx, "z3-new", fmt.Sprintf("-T:%d", secs), fmt.Sprintf("smt.random_seed=%d", seed), file)
 	case "cvc5":
-		cmd = exec.CommandContext(cctx, "cvc5", fmt.Sprintf("--tlimit=%d", secs*1000), "--seed=1", file)
+		if f2 := cvc5File(file); f2 != file {
+			file = f2
+			defer os.Remove(f2)
+		}
+		cmd = exec.CommandContext(cctx, "cvc5", fmt.Sprintf("--tlimit=%d", secs*1000), fmt.Sprintf("--seed=%d", seed), file)
 	}
 	var out bytes.Buffer
 	cmd.Stdout = &out
@@ -125,7 +134,7 @@ func Discharge(obls []*Obligation, timeout time.Duration, workers int, keepDir s
 				}
 				prev := o.Output
 				o.Result, o.Solver, o.Output = "", "", ""
-				t := dischargeOne(o, file, 3*timeout)
+				t := dischargeSeeds(o, file, 3*timeout)
 				if o.Result != "proved" {
 					o.Output = prev + " | retry: " + o.Output
 				}
@@ -249,4 +258,105 @@ func firstLines(s string, n int) string {
 		ls = ls[:n]
 	}
 	return strings.Join(ls, " | ")
+}
+
+// dischargeSeeds is the retry strategy: quantifier instantiation in the solvers is seed-dependent, and an obligation
+// that is provable but sits near the limit must not turn into an alarm. Several seeds of both z3 versions and cvc5 run
+// concurrently; one "unsat" proves the obligation, one "sat" refutes it (a disagreement is reported as undischarged).
+func dischargeSeeds(o *Obligation, file string, timeout time.Duration) float64 {
+	type job struct {
+		solver string
+		seed   int
+	}
+	jobs := []job{{"z3-new", 2}, {"z3-new", 3}, {"z3-new", 1}, {"z3", 2}, {"z3", 1}, {"cvc5", 1}}
+	ctx, cancel := context.WithCancel(context.Background())
+	defer cancel()
+	resCh := make(chan solverRes, len(jobs))
+	for _, j := range jobs {
+		go func(j job) {
+			r := runSolverSeed(ctx, j.solver, file, timeout, j.seed)
+			r.solver = fmt.Sprintf("%s(seed %d)", j.solver, j.seed)
+			resCh <- r
+		}(j)
+	}
+	total := 0.0
+	var unsat, sat *solverRes
+	var parts []string
+	for range jobs {
+		r := <-resCh
+		total += r.secs
+		rr := r
+		switch r.ans {
+		case "unsat":
+			if unsat == nil {
+				unsat = &rr
+			}
+		case "sat":
+			if sat == nil {
+				sat = &rr
+			}
+		default:
+			parts = append(parts, fmt.Sprintf("%s: %s (%.1fs)", r.solver, r.ans, r.secs))
+		}
+		if unsat != nil || sat != nil {
+			break
+		}
+	}
+	cancel()
+	switch {
+	case unsat != nil && sat != nil:
+		o.Result, o.Solver = "undischarged", unsat.solver+"/"+sat.solver
+		o.Output = "solver disagreement: " + unsat.solver + " says unsat, " + sat.solver + " says sat"
+	case unsat != nil:
+		o.Result, o.Solver, o.Secs = "proved", unsat.solver, unsat.secs
+	case sat != nil:
+		o.Result, o.Solver, o.Secs, o.Model, o.Output = "refuted", sat.solver, sat.secs, sat.out, "sat"
+	default:
+		o.Result = "undischarged"
+		o.Output = strings.Join(parts, "; ")
+		o.Secs = total
+	}
+	return total
+}
+
+var reConstNull = regexp.MustCompile(`\(\(as const (\(Array [A-Za-z0-9_.]+ [A-Za-z0-9_.]+\))\) null\)`)
+
+// cvc5File writes the cvc5 dialect of a script: cvc5 only accepts values as the element of a constant array, and the
+// null reference is a declared constant. Each ((as const (Array K Ref)) null) becomes a declared array that is null
+// everywhere (same meaning, stated with a quantifier).
+func cvc5File(file string) string {
+	b, err := os.ReadFile(file)
+	if err != nil {
+		return file
+	}
+	s := string(b)
+	out := file + ".cvc5.smt2"
+	if strings.Contains(s, "(as const") {
+		decl := map[string]string{}
+		var order []string
+		s = reConstNull.ReplaceAllStringFunc(s, func(m string) string {
+			sort := reConstNull.FindStringSubmatch(m)[1]
+			if _, ok := decl[sort]; !ok {
+				decl[sort] = fmt.Sprintf("constnull.%d", len(decl))
+				order = append(order, sort)
+			}
+			return decl[sort]
+		})
+		var d strings.Builder
+		for _, sort := range order {
+			key := strings.Fields(strings.Trim(sort, "()"))[1]
+			fmt.Fprintf(&d, "(declare-const %s %s)\n(assert (forall ((i %s)) (= (select %s i) null)))\n", decl[sort], sort, key, decl[sort])
+		}
+		if d.Len() > 0 {
+			k := strings.Index(s, "(declare-const null Ref)\n")
+			if k >= 0 {
+				k += len("(declare-const null Ref)\n")
+				s = s[:k] + d.String() + s[k:]
+			}
+		}
+	}
+	if os.WriteFile(out, []byte(s), 0644) != nil {
+		return file
+	}
+	return out
 }
